@@ -1,4 +1,4 @@
 SPECIFICATION Spec
-CONSTANT StrictProps = {"C01"}
+CONSTANT StrictProps = {"C11"}
 POSTCONDITION Accepted
 CHECK_DEADLOCK FALSE
